@@ -103,6 +103,8 @@ func Run(run *vh.Run) {
 	run.Floor("touches of vesting accounts expired as of block time", run.Get("touch_expired_vesting"), int64(run.N(20, 300)))
 	run.Floor("contracts deleted after receiving value following their SELFDESTRUCT", run.Get("vaults_deleted_after_being_paid_again"), int64(run.N(6, 60)))
 	run.Floor("of these, holding a second denomination", run.Get("vaults_deleted_while_holding_a_second_denomination"), int64(run.N(3, 30)))
+	run.Floor("vaults intact after a SELFDESTRUCT in a rolled-back frame", run.Get("vaults_intact_after_a_reverted_selfdestruct"), int64(run.N(6, 60)))
+	run.Floor("storage written by init code of contracts that self-destruct in their constructor", run.Get("constructor_selfdestructs_after_sstore"), int64(run.N(10, 150)))
 	run.Floor("deletions observed", run.Get("accounts_deleted"), int64(run.N(10, 150)))
 	run.Assumptions = append(run.Assumptions, "delegation of locked coins is not 'spending' (standard vesting semantics); the staking precompile is not part of this workload",
 		"an account that existed with code before the transaction and is deleted must be one whose code contains a reachable SELFDESTRUCT (known from the generator)")
@@ -259,6 +261,10 @@ func world(run *vh.Run, label string, wi, nBlocks int) {
 				plans = append(plans, tag(w.PlanEth(s, &to, big.NewInt(int64(1+r.Intn(1000))), 30000, nil, "ok", nil), "pay"))
 			case k < 9: // one-off contract: touch several specials (BALANCE + zero-value CALL), then maybe selfdestruct toward one
 				a := vh.NewAsm()
+				stored := r.Bool()
+				if stored { // storage written by the constructor of a contract that may destroy itself right there
+					a.SStore(uint64(1+r.Intn(3)), 7)
+				}
 				for j := r.Range(1, 4); j > 0; j-- {
 					t := vh.Pick(r, specials).addr
 					a.PushAddr(t).Op(vm.BALANCE, vm.POP)
@@ -268,6 +274,9 @@ func world(run *vh.Run, label string, wi, nBlocks int) {
 				if r.Bool() {
 					a.PushAddr(sp.addr).Op(vm.SELFDESTRUCT)
 					kind = "selfdestruct-toward"
+					if stored {
+						run.Count("constructor_selfdestructs_after_sstore", 1)
+					}
 				} else {
 					a.Op(vm.STOP)
 				}
@@ -325,6 +334,21 @@ func world(run *vh.Run, label string, wi, nBlocks int) {
 				}
 			}
 		}
+		if b%10 == 8 {
+			// a SELFDESTRUCT inside a frame that is rolled back (vault <- middle contract that reverts <- top contract that
+			// ignores the failure): the vault did not self-destruct; it keeps its record, code and coins
+			owner := vh.Pick(r, w.EOAs)
+			ben := common.BytesToAddress(r.Bytes(20))
+			v := big.NewInt(int64(1+r.Intn(1000)) * 1_000_000_000)
+			sc := w.PlanRevertedDestroy(owner, ben, v)
+			tracked[sc.Vault], tracked[sc.Mid], tracked[sc.Top], tracked[ben] = "contract:vault", "contract", "contract", "base:fresh"
+			// deliberately NOT marked self-destructable: in this scenario its SELFDESTRUCT never survives
+			runBlock([]*vh.TxPlan{tag(sc.Deploy[0], "deploy-vault"), tag(sc.Deploy[1], "deploy-reverting-middle"), tag(sc.Deploy[2], "deploy-top")})
+			runBlock([]*vh.TxPlan{tag(sc.Fire(w, vh.Pick(r, w.EOAs)), "selfdestruct-in-reverted-frame")})
+			if w.C.App.AccountKeeper.HasAccount(w.C.QueryCtx(), sc.Vault.Bytes()) && w.C.Balance(sc.Vault).Cmp(new(big.Int).Add(v, big.NewInt(1))) == 0 && w.C.Balance(ben).Sign() == 0 {
+				run.Count("vaults_intact_after_a_reverted_selfdestruct", 1)
+			}
+		}
 	}
 }
 
@@ -378,6 +402,9 @@ func check(run *vh.Run, label string, w *vh.World, ob *vh.ObservedBlock, plans [
 			continue
 		}
 		run.Eval(1)
+		if pl.Note == "selfdestruct-in-reverted-frame" {
+			run.Max("reverted_destroy_fire_gas_used_max", res.GasUsed)
+		}
 		diff := vh.Diff(ob.Pre[i].Dump, ob.Post[i].Dump)
 		wit := func(a common.Address, extra map[string]any) map[string]any {
 			m := map[string]any{"world": label, "height": ob.Height, "block_time": pre.BlockTime, "index": i, "plan": pl.String(), "interaction": pl.Note,
@@ -475,6 +502,20 @@ func check(run *vh.Run, label string, w *vh.World, ob *vh.ObservedBlock, plans [
 					}
 				}
 			}
+		}
+		// whatever the transaction did: contract state (storage slot, code hash) it leaves behind belongs to an address
+		// that has an account record afterwards
+		for _, ch := range diff {
+			if ch.Store != "evm" || ch.New == nil || len(ch.Key) < 21 || (ch.Key[0] != 0x02 && ch.Key[0] != 0x04) {
+				continue
+			}
+			owner := common.BytesToAddress(ch.Key[1:21])
+			if _, ok := ob.Post[i].Dump["acc\x00\x01"+string(owner.Bytes())]; !ok {
+				run.Violation("contract-state-left-at-address-without-account", label, map[string]any{"world": label, "height": ob.Height, "index": i, "plan": pl.String(), "interaction": pl.Note,
+					"address": owner.Hex(), "leftover_key": fmt.Sprintf("%x", ch.Key), "code": res.Code})
+				break
+			}
+			run.Count("contract_state_writes_checked_for_an_account_record", 1)
 		}
 		if touchedProtected {
 			run.Count("tx_touching_protected", 1)
